@@ -38,7 +38,9 @@ pub fn check(r: &RunResult, rep: &mut Report) {
 					if dur > attempt_time_bound(w, cert_idx) {
 						let orders = w.cas.iter().map(|c| c.orders.iter().filter(|o| o.cert == Some(cert_idx) && o.created_t >= a.begin.t).count()).sum::<usize>();
 						let cause = if orders == 0 && !w.plan.faults.iter().all(|f| f.cert.is_none()) { "never_got_the_endpoint" } else { "" };
-						rep.add(Violation::new("C07", "attempt_not_terminated", cause, if cause.is_empty() { common::last_class_in(w, a) } else { String::new() }.as_str(), format!("attempt of {} still running after {} virtual seconds", a.cert, dur)));
+						if cause.is_empty() {
+						rep.add(Violation::new("C07", "attempt_not_terminated", cause, common::last_class_in(w, a).as_str(), format!("attempt of {} still running after {} virtual seconds", a.cert, dur)));
+						}
 					}
 				}
 				continue;
@@ -74,7 +76,8 @@ pub fn check(r: &RunResult, rep: &mut Report) {
 			let hard_fail_possible = post_hooks.iter().any(|h| !h.exits.is_empty()) || w.plan.faults.iter().any(|f| f.site == "proc");
 			let want: Vec<String> = post_hooks.iter().map(|h| h.name.clone()).collect();
 			let got: Vec<String> = seen.iter().map(|s| s.0.clone()).collect();
-			let ok = if hard_fail_possible { !got.is_empty() && want.starts_with(&got) } else { got == want };
+			let spawn_failed = w.trace.iter().any(|e| e.seq > a.begin.seq && e.seq < end.seq && matches!(&e.ev, Ev::SpawnFail { .. }));
+			let ok = if hard_fail_possible { (!got.is_empty() || spawn_failed) && want.starts_with(&got) } else { got == want };
 			if !ok {
 				let kind = if got.len() > want.len() { "post_operation_more_than_once" } else { "post_operation_missing" };
 				rep.add(Violation::new("C07", kind, "", &common::last_class_in(w, a), format!("expected post-operation hooks {:?}, ran {:?}", want, got)));
